@@ -52,6 +52,39 @@ def jhash(obj) -> str:
     return hashlib.sha1(json.dumps(obj, sort_keys=True, default=repr).encode()).hexdigest()[:16]
 
 
+_ENGINE_EXC = ('IndexError', 'RuntimeError', 'MemoryError', 'OverflowError', 'BufferError')
+
+
+def _raised_by_engine_call(e) -> bool:
+    """An exception with no deeper Python frame than a harness line that calls a method of an optree object (or
+    an optree function) was raised by native code reached from that line.  For the exception types the engine's
+    C++ produces when it goes wrong (std::out_of_range -> IndexError, std::runtime_error -> RuntimeError, ...) that
+    is the code under test misbehaving on an input the harness built to be valid, not a harness error.  Ordinary
+    TypeError / ValueError / AttributeError / KeyError stay harness errors (exit 2)."""
+    import re
+    if type(e).__name__ not in _ENGINE_EXC:
+        return False
+    tb = e.__traceback__
+    if tb is None:
+        return False
+    while tb.tb_next is not None:
+        tb = tb.tb_next
+    frame = tb.tb_frame
+    try:
+        import linecache
+        line = linecache.getline(frame.f_code.co_filename, tb.tb_lineno)
+    except Exception:  # noqa: BLE001
+        return False
+    for name in set(re.findall(r'\b([A-Za-z_][A-Za-z0-9_]*)\s*\.\s*[A-Za-z_][A-Za-z0-9_]*\s*\(', line)):
+        obj = frame.f_locals.get(name, frame.f_globals.get(name))
+        if obj is None:
+            continue
+        mod = getattr(obj, '__name__', '') if isinstance(obj, type(re)) else getattr(type(obj), '__module__', '')
+        if str(mod).split('.')[0] == 'optree':
+            return True
+    return False
+
+
 class Ctx:
     def __init__(self, prop, tier, seed, shard=0, nshards=1):
         self.prop, self.tier, self.seed, self.shard, self.nshards = prop, tier, seed, shard, nshards
@@ -100,7 +133,7 @@ class Ctx:
             tb = traceback.extract_tb(e.__traceback__)
             inner = tb[-1].filename if tb else ''
             name = type(e).__name__
-            if name in ('InternalError', 'SystemError') or '/optree/' in inner:
+            if name in ('InternalError', 'SystemError') or '/optree/' in inner or _raised_by_engine_call(e):
                 self._fails.append((f'escaped:{name}', f'{name}: {e}'[:600]))
             else:
                 self.harness_errors.append(''.join(traceback.format_exception(e))[-3000:])
